@@ -66,6 +66,7 @@ def main(argv=None):
     # replay discipline: every kept violation is re-executed from scratch and must reproduce
     new_sigs = {}
     known_hit = {}
+    unconfirmed = {}
     for v in col.violations:
         sig = v.get("sig", "?")
         if sig in known_sigs:
@@ -86,14 +87,16 @@ def main(argv=None):
             # the two compared executions differ only in object addresses; the difference itself is the evidence
             v = dict(v, note="observed once; not reproducible on demand because it depends on memory addresses")
         elif sig not in set(x.get("sig") for x in again):
-            sys.stderr.write(
-                "HARNESS ERROR: violation %s did not reproduce on re-execution (nondeterminism in the harness)\n%s\n"
-                % (sig, json.dumps(v, default=str)[:3000])
-            )
-            return 2
+            # not reproducible on demand: never reported as a violation on its own (it may be nondeterminism of the harness);
+            # if nothing else confirms, the run ends as a harness error (exit 2), otherwise the confirmed violations decide
+            unconfirmed[sig] = v
+            sys.stderr.write("UNCONFIRMED: violation %s did not reproduce on re-execution\n%s\n" % (sig, json.dumps(v, default=str)[:1500]))
+            continue
         new_sigs[sig] = v
     # sigs counted but with no kept instance
     for sig, n in col.viol_sigs.items():
+        if sig in unconfirmed:
+            continue
         if n > 0 and sig not in known_sigs and sig not in new_sigs:
             new_sigs[sig] = {"sig": sig, "note": "instance not kept (cap)", "property": pid}
         if n > 0 and sig in known_sigs and sig not in known_hit:
@@ -115,6 +118,9 @@ def main(argv=None):
         print("  sig=%s occurrences=%d detail=%s" % (sig, col.viol_sigs.get(sig, 1), json.dumps(v.get("detail"), default=str)[:600]))
         rc = 1
     evidence.write(pid, a.tier, seed, col, meta, wall, new=len(new_sigs), known=sorted(known_hit))
+    if unconfirmed and rc == 0:
+        sys.stderr.write("HARNESS ERROR: %d violation signature(s) seen during exploration did not reproduce on re-execution and nothing else confirmed them\n" % len(unconfirmed))
+        return 2
     vac = meta.get("vacuous")
     if vac:
         sys.stderr.write("HARNESS ERROR: vacuous exploration: %s\n" % vac)
